@@ -34,6 +34,7 @@ from typing import (
     Dict,
     List,
     Optional,
+    Tuple,
     Union,
     overload,
 )
@@ -137,6 +138,9 @@ class Interpreter(BaseInterpreter[TContext, TEvent]):
         #: runaway `raise` without ever throttling or discarding external
         #: `send()` traffic.
         self._raise_depth: int = 0
+        #: Events processed so far in the chain of the event being handled
+        #: (a one-element list shared by every event the chain produces).
+        self._raise_count: List[int] = [0]
         #: True while `_run_event_loop` is inside `_process_event...`.
         self._processing: bool = False
         #: Set once `start()` has entered and settled the initial
@@ -381,7 +385,7 @@ class Interpreter(BaseInterpreter[TContext, TEvent]):
 
         # 📥 Place the standardized event object into the async queue,
         #    together with the depth of the self-raised chain it belongs to.
-        await self._event_queue.put((event_obj, self._new_event_depth()))
+        await self._event_queue.put((event_obj, *self._new_event_depth()))
 
     async def send_events(
         self, events: List[Union[Dict[str, Any], Event, str]]
@@ -406,10 +410,10 @@ class Interpreter(BaseInterpreter[TContext, TEvent]):
 
         for event in events:
             event_obj = self._prepare_event(event)
-            await self._event_queue.put((event_obj, self._new_event_depth()))
+            await self._event_queue.put((event_obj, *self._new_event_depth()))
 
-    def _new_event_depth(self) -> int:
-        """Chain depth for an event that is being queued right now.
+    def _new_event_depth(self) -> Tuple[int, List[int]]:
+        """Chain depth and chain counter for an event being queued right now.
 
         🔁 An event queued by the run-loop task itself while it is processing
         another event (a `raise`, a self-addressed `sendTo`, a `done.state`
@@ -418,8 +422,14 @@ class Interpreter(BaseInterpreter[TContext, TEvent]):
         starts a new chain, so a bound on the chain can never throttle or
         discard external traffic.
 
+        🌳 Depth alone does not bound a chain that FANS OUT: two `raise`
+        actions per step stay under any depth limit for 2**limit events. The
+        events of one chain therefore also share a counter of how many of
+        them have been processed.
+
         Returns:
-            int: The depth to store with the event.
+            Tuple[int, List[int]]: The depth and the shared chain counter to
+            store with the event.
         """
         if self._processing:
             try:
@@ -427,8 +437,8 @@ class Interpreter(BaseInterpreter[TContext, TEvent]):
             except RuntimeError:  # pragma: no cover - no running loop
                 current = None
             if current is not None and current is self._event_loop_task:
-                return self._raise_depth + 1
-        return 0
+                return self._raise_depth + 1, self._raise_count
+        return 0, [0]
 
     # -------------------------------------------------------------------------
     # ⚙️ Internal Event Loop & Execution Logic
@@ -460,9 +470,11 @@ class Interpreter(BaseInterpreter[TContext, TEvent]):
             await self._initial_entry_done.wait()
             while self.status == "running":
                 # 📬 Wait indefinitely for the next event from the queue.
-                event, chain_depth = await self._event_queue.get()
+                event, chain_depth, chain_count = await self._event_queue.get()
 
-                if chain_depth > limit:
+                if chain_depth > 0:
+                    chain_count[0] += 1
+                if chain_depth > limit or chain_count[0] > limit:
                     logger.error(
                         "🛑 Exceeded %d chained self-raised events on '%s'. "
                         "This means an action raises the event that triggers "
@@ -474,6 +486,7 @@ class Interpreter(BaseInterpreter[TContext, TEvent]):
                     self._event_queue.task_done()
                     continue
                 self._raise_depth = chain_depth
+                self._raise_count = chain_count
 
                 logger.debug(
                     "🔥 Event '%s' dequeued for processing in '%s'.",
